@@ -579,15 +579,22 @@ def run(ctx):
                       {"correspondence": "build of harness/overlay against server/"})
         ctx.finish()
     x_replay = bool(ctx.replay) and json.load(open(ctx.replay)).get("replay", {}).get("part") == "c13x"
-    if not x_replay:
+    ev_replay = bool(ctx.replay) and json.load(open(ctx.replay)).get("replay", {}).get("part") == "c13evict"
+    if not x_replay and not ev_replay:
         fuzz(ctx, stats)
     t_fuzz = time.time() - t0
-    if x_replay or not ctx.replay:
+    if x_replay or (not ctx.replay):
         # slow consumers / request slot and held topic load: structured driver + models Inflight.v, HeldLoad.v
         from props import c13x
         t1 = time.time()
         c13x.run_part(ctx, stats)
         stats["c13x"]["wall_s"] = round(time.time() - t1, 1)
+    if ev_replay or not ctx.replay:
+        # the session store and the stop notice: structured driver TestVerifC13Evict + model EvictStoreC13.v
+        from props import c13evict
+        t1 = time.time()
+        c13evict.run_part(ctx, stats)
+        stats["c13evict"]["wall_s"] = round(time.time() - t1, 1)
     if not ctx.replay:
         from props import c13drafty
         c13drafty.run(ctx, stats, have_model=have_coq)
@@ -620,6 +627,7 @@ def run(ctx):
         "inputs_skipped_because_their_shape_already_crashed": stats["skipped_after_crash"],
         "drafty_fuzz": stats.get("drafty"),
         "slow_consumers_and_held_load": stats.get("c13x"),
+        "session_store_and_stop_notice": stats.get("c13evict"),
         "model_correspondence": stats.get("model"),
         "open_statements": [
             "c13_no_panic_statement (code as it is): REFUTED by the model and by the implementation (c13_no_panic_refuted, c13_witnesses); the full theorem c13_no_panic holds for the code after findings/C13_*.diff only",
